@@ -152,6 +152,10 @@ func runSmallVec(c enum.VecCase, a *run.Acc) {
 		fail("engine-leak", fmt.Sprintf("%d native engine objects alive after all segments were closed", live))
 		return
 	}
+	if m := engineMisuse(); m != "" {
+		fail("engine-misuse", m)
+		return
+	}
 	a.Outcome(fmt.Sprintf("ok/exact/vecs=%d", min(c.NumVecs(), 4)))
 }
 
